@@ -56,7 +56,7 @@ def event_rv(item):
 
 
 # ------------------------------------------------------------------------------------ W1
-@harness('W1', targets=['kopf._cogs.clients.watching.continuous_watch', 'kopf._cogs.clients.watching.watch_objs'], props=['C19', 'C03'],
+@harness('W1', targets=['kopf._cogs.clients.watching.continuous_watch', 'kopf._cogs.clients.watching.watch_objs'], props=['C19', 'C03', 'C01'],
          clauses=['list_first', 'listed_objects_as_none_events', 'listed_bookmark', 'since_is_last_yielded',
                   'known_events_passed_through', 'unknown_types_skipped', 'gone_returns', 'error_raises',
                   'listing_connection_errors_return', 'other_failures_propagate', 'pause_stops_watching', 'frame',
